@@ -67,12 +67,12 @@ def episodes(prop, tier, seed):
         if not q:
             out["dirty-release"] = (g.dirty_episodes(seed + 1, 6000), "release")
     if prop == "C11":
-        out["mem"] = (g.mem_episodes(seed, 900 if q else 12000), "verif")
+        out["mem"] = (g.mem_episodes(seed, 3000 if q else 20000), "verif")
     if prop == "C12":
-        out["ood"] = (g.ood_episodes(seed, 1200 if q else 16000) + g.ood_known_episodes(), "verif")
-        out["ood-release"] = (g.ood_episodes(seed + 1, 400 if q else 6000) + g.overflow_episodes(), "release")
+        out["ood"] = (g.ood_episodes(seed, 4000 if q else 24000) + g.ood_known_episodes(), "verif")
+        out["ood-release"] = (g.ood_episodes(seed + 1, 1500 if q else 10000) + g.overflow_episodes(), "release")
     if prop == "C15":
-        out["reload"] = (g.reload_episodes(seed, 500 if q else 6000), "verif")
+        out["reload"] = (g.reload_episodes(seed, 1500 if q else 8000), "verif")
         if not q:
             out["reload-release"] = (g.reload_episodes(seed + 1, 1500), "release")
     return out
